@@ -72,6 +72,8 @@ type State struct {
 	heapBase string
 	alloc    string
 	dead     bool
+	// ghost: number of calls made so far per callee name (only the names a contract mentions in calls(f))
+	calls map[string]string
 }
 
 func (s *State) clone() *State {
@@ -88,7 +90,20 @@ func (s *State) clone() *State {
 	for k, v := range s.heap {
 		n.heap[k] = v
 	}
+	if len(s.calls) > 0 {
+		n.calls = make(map[string]string, len(s.calls))
+		for k, v := range s.calls {
+			n.calls[k] = v
+		}
+	}
 	return n
+}
+
+func (s *State) callCount(name string) string {
+	if v := s.calls[name]; v != "" {
+		return v
+	}
+	return "0"
 }
 
 type Obligation struct {
@@ -165,6 +180,9 @@ type fnCtx struct {
 	curPos       token.Pos // position of the clause being evaluated (lexical resolution of shadowed locals)
 	curSkolems   []modelInput
 	boundCalls   map[int]bool
+	countCalls   map[string]bool // callee names mentioned in calls(f) by the contract
+	wantResults  map[string]bool // "f#k" keys mentioned in callresult(f, k) by the contract
+	callResults  map[string]Val  // results of the last execution of those call sites
 	boundAfters  map[int]bool
 	framedBases  map[string]bool
 	allowed      map[string][]string
@@ -193,7 +211,6 @@ type loopInfo struct {
 	measures []string
 	hdrState *State
 }
-
 
 func (fc *fnCtx) S() *Sorts { return fc.eng.sorts }
 
@@ -1085,6 +1102,23 @@ func (fc *fnCtx) mergeStates(edges []inEdge, label string) *State {
 		}
 		out.heap[k] = mergeTerm("H."+k, srt, vals)
 	}
+	// ghost call counters
+	callKeys := map[string]bool{}
+	for _, e := range live {
+		for k := range e.st.calls {
+			callKeys[k] = true
+		}
+	}
+	for _, k := range sortedKeys(callKeys) {
+		vals := make([]string, len(live))
+		for i, e := range live {
+			vals[i] = e.st.callCount(k)
+		}
+		if out.calls == nil {
+			out.calls = map[string]string{}
+		}
+		out.calls[k] = mergeTerm("calls."+k, "Int", vals)
+	}
 	// globals
 	globKeys := map[*ssa.Global]bool{}
 	for _, e := range live {
@@ -1373,6 +1407,18 @@ func (fc *fnCtx) enterLoop(li *loopInfo, st *State) {
 			}
 		}
 	}()
+	for _, name := range sortedKeys(fc.top.countCalls) {
+		if !loopCalls(li, name) {
+			continue
+		}
+		old := st.callCount(name)
+		n := fc.defs.Declare("calls."+name+".l", "Int")
+		if st.calls == nil {
+			st.calls = map[string]string{}
+		}
+		st.calls[name] = n
+		fc.assume(st, fmt.Sprintf("(>= %s %s)", n, old))
+	}
 	if all {
 		old := st.alloc
 		wasFramed := st.heapBase == fc.entryBase() || fc.top.framedBases[st.heapBase]
@@ -1635,6 +1681,17 @@ func (fc *fnCtx) execInstr(st *State, instr ssa.Instruction) {
 		fc.execPhi(st, x)
 	case *ssa.Call:
 		fc.execCall(st, x)
+		if t := fc.top; fc == t && !fc.inline && !fc.specMode && len(t.wantResults) > 0 {
+			if name := siteCalleeName(x.Common()); name != "" {
+				if t.callOrds == nil {
+					t.callOrds = siteOrdinals(t.fn)
+				}
+				key := fmt.Sprintf("%s#%d", name, t.callOrds[x])
+				if v, ok := fc.vals[x]; ok && t.wantResults[key] {
+					t.callResults[key] = v
+				}
+			}
+		}
 	case *ssa.ChangeType:
 		v := fc.get(st, x.X)
 		fc.vals[x] = Val{T: v.T, Ty: x.Type(), Addr: v.Addr}
@@ -2614,4 +2671,32 @@ func (fc *fnCtx) isParamCell(a *ssa.Alloc) bool {
 		}
 	}
 	return false
+}
+
+// loopCalls: some call site inside the loop has the given callee name (as `call f#k` clauses name it)
+func loopCalls(li *loopInfo, name string) bool {
+	for b := range li.blocks {
+		for _, ins := range b.Instrs {
+			call, ok := ins.(ssa.CallInstruction)
+			if !ok {
+				continue
+			}
+			if siteCalleeName(call.Common()) == name {
+				return true
+			}
+		}
+	}
+	return false
+}
+
+// siteCalleeName: the name under which `call f#k`, calls(f) and callresult(f, k) know a call site
+func siteCalleeName(c *ssa.CallCommon) string {
+	if c.IsInvoke() {
+		return c.Method.Name()
+	} else if callee := c.StaticCallee(); callee != nil {
+		return callee.Name()
+	} else if bi, ok := c.Value.(*ssa.Builtin); ok {
+		return bi.Name()
+	}
+	return dynCalleeName(c.Value)
 }
